@@ -121,14 +121,17 @@ func c01LayoutPredicates(src []byte) []string {
 			break
 		}
 	}
-	// an own-line comment block that follows a blank line and is directly followed by a case /
+	// an own-line comment block that is directly followed by a case /
 	// default line that is indented LESS than the comment ("hanging" comment at the end of a
 	// clause body): gofmt keeps the body-level indentation because of the comment's original
 	// column; dst attaches the comment to the next clause and prints it at clause level
 	for i := 1; i+1 < len(lines); i++ {
 		t := strings.TrimLeft(lines[i], "\t")
-		if !(strings.HasPrefix(t, "//") || strings.HasPrefix(t, "/*")) || strings.TrimSpace(lines[i-1]) != "" {
+		if !(strings.HasPrefix(t, "//") || strings.HasPrefix(t, "/*")) {
 			continue
+		}
+		if pt := strings.TrimLeft(lines[i-1], "\t"); strings.HasPrefix(pt, "//") || strings.HasPrefix(pt, "/*") {
+			continue // not the first line of the comment block
 		}
 		j := i
 		for j < len(lines) && (strings.HasPrefix(strings.TrimLeft(lines[j], "\t"), "//") || strings.HasPrefix(strings.TrimLeft(lines[j], "\t"), "/*") || strings.HasSuffix(strings.TrimSpace(lines[j]), "*/")) {
@@ -139,7 +142,7 @@ func c01LayoutPredicates(src []byte) []string {
 		}
 		nt := strings.TrimLeft(lines[j], "\t")
 		if (strings.HasPrefix(nt, "case ") || strings.HasPrefix(nt, "default:")) && len(lines[j])-len(nt) < len(lines[i])-len(t) {
-			ps = append(ps, "hanging-comment-after-blank-line-before-case")
+			ps = append(ps, "hanging-comment-before-case")
 			break
 		}
 	}
